@@ -3,6 +3,8 @@ package props
 import (
 	"errors"
 	"fmt"
+	"github.com/robfig/soy/soyhtml"
+	"github.com/robfig/soy/soymsg"
 	"io"
 	"os"
 	"strings"
@@ -34,12 +36,20 @@ type faultWriter struct {
 	calls    int
 	accepted []byte
 	failed   bool
+	// once: only the write call failAt fails; the writer takes what comes afterwards (a transient error). accepted
+	// keeps what was taken before the failure, later holds what was taken after it.
+	once  bool
+	later []byte
 }
 
 func (w *faultWriter) Write(p []byte) (int, error) {
 	idx := w.calls
 	w.calls++
 	if w.failed {
+		if w.once {
+			w.later = append(w.later, p...)
+			return len(p), nil
+		}
 		return 0, errInjected
 	}
 	if w.failAt >= 0 && idx == w.failAt {
@@ -79,7 +89,7 @@ func init() {
 		Level: "fault_enumeration",
 		Rule: "for each seeded valid bundle (the C02 generator, all write sites: raw text, escaped and unescaped prints, css, msg text and html-tag placeholders, special chars, literal, callee output) " +
 			"whose fault-free render succeeds: record the write calls W0..Wn-1 and output O; then a sticky failing writer at EVERY call index k<n (accepting nothing, and accepting half), and short-capacity " +
-			"writers at capacity 0, 1, every write boundary +-1 and |O|-1; demand err != nil and accepted bytes a prefix of O; capacity |O| must give nil. " +
+			"a writer failing that one call only; writers at capacity 0, 1, every write boundary +-1 and |O|-1; demand err != nil and accepted bytes a prefix of O; capacity |O| must give nil. " +
 			"distinct = distinct (sources, data, fault); non-trivial = the fault hits a write that carries bytes",
 		N: func(tier string) int {
 			if tier == "thorough" {
@@ -136,6 +146,7 @@ func init() {
 			if err != nil {
 				return fw.Result{Verdict: fw.Skip} // C02's subject
 			}
+			var curMsgs soymsg.Bundle
 			run := func(w interface {
 				Write([]byte) (int, error)
 			}) error {
@@ -144,7 +155,20 @@ func init() {
 				if prog.IJ != nil {
 					r.Inject(toData(*prog.IJ).(data.Map))
 				}
+				if curMsgs != nil {
+					r.WithMessages(curMsgs)
+				}
 				return r.Execute(w, toDataMap(prog.Data))
+			}
+			kinds12, _ := shapeOf(prog.B)
+			if kinds12["Msg"] && i%2 == 0 {
+				// the whole enumeration once more under a catalogue that translates every message: the pieces of a
+				// translated message are write sites of their own
+				if reg, rerr := compileRegistry(files, prog.B.Globals); rerr == nil {
+					curMsgs = translationsWithPlurals(reg)
+					tofu = soyhtml.NewTofu(reg)
+					ctx.Cell("under-catalogue")
+				}
 			}
 			rec := &recWriter{}
 			if err := run(rec); err != nil {
@@ -171,6 +195,9 @@ func init() {
 				ctx.Eval(id)
 				ctx.Obs("faults_injected", 1)
 				node := nodeAt(segs, off)
+				if curMsgs != nil {
+					node = "under-catalogue" // the reference segments describe the untranslated output
+				}
 				ctx.Cell("site:" + node)
 				if mustFail && err == nil {
 					cd.Got = string(fwr.accepted)
@@ -201,6 +228,10 @@ func init() {
 						return *r
 					}
 				}
+				// a writer that fails this one call only
+				if r := check(&faultWriter{failAt: k, capacity: -1, once: true}, fmt.Sprintf("write call %d/%d fails, later calls succeed", k, len(rec.writes)), true, off); r != nil {
+					return *r
+				}
 			}
 			// byte capacities
 			caps := map[int]bool{0: true, 1: true, len(O) - 1: true}
@@ -229,7 +260,7 @@ func init() {
 					name string
 					f    func(io.Writer) error
 				}{{"Renderer.Execute", func(w io.Writer) error { return run(w) }}}
-				if prog.IJ == nil {
+				if prog.IJ == nil && curMsgs == nil { // (Tofu.Render takes neither injected data nor a catalogue)
 					entries = append(entries, struct {
 						name string
 						f    func(io.Writer) error
@@ -287,6 +318,9 @@ func init() {
 				if !cells["site:"+s] {
 					why = append(why, "write site never failed: "+s)
 				}
+			}
+			if !cells["under-catalogue"] {
+				why = append(why, "no enumeration under a message catalogue")
 			}
 			if !cells["long-value-last"] {
 				why = append(why, "no long value written by the last command")
